@@ -333,6 +333,44 @@ func c20Extra(p *core.Program, r *core.Report) {
 			}
 		}
 	}
+	// CV4: who wakes the waiters. A trailing permission is granted at Call time and
+	// handed out when the period ends; that relies on no wake-up reaching a blocked
+	// Next earlier. Only Call (which schedules the wake-up for the end of the period)
+	// and Cancel may signal the condition variable.
+	for _, g := range p.Funcs {
+		top := g
+		for top.Parent() != nil {
+			top = top.Parent()
+		}
+		if top.Signature.Recv() == nil {
+			continue
+		}
+		if n := namedOf(top.Signature.Recv().Type()); n == nil || n.Obj().Name() != "throttler" {
+			continue
+		}
+		for _, in := range path.Instrs(g) {
+			wake := false
+			switch x := in.(type) {
+			case *ssa.Call:
+				if callee := x.Call.StaticCallee(); callee != nil && callee.Signature.Recv() != nil && strings.Contains(callee.Signature.Recv().Type().String(), "sync.Cond") && (callee.Name() == "Broadcast" || callee.Name() == "Signal") {
+					wake = true
+				}
+			case *ssa.MakeClosure:
+				if f, ok := x.Fn.(*ssa.Function); ok && (strings.HasSuffix(f.Name(), "Broadcast$bound") || strings.HasSuffix(f.Name(), "Signal$bound")) {
+					wake = true
+				}
+			}
+			if !wake {
+				continue
+			}
+			okW := top.Name() == "Call" || top.Name() == "Cancel"
+			r.Obligation("CV4", okW, map[string]any{"rule": "CV4", "function": p.FuncName(top), "what": "waiters are woken only by Call and Cancel", "at": p.InstrPos(in), "ok": okW})
+			if !okW {
+				r.Violation(core.Diag{Rule: "CV4", Func: p.FuncName(top), Object: "wakes the waiters", Pos: p.InstrPos(in),
+					Reason: "the condition variable is signalled by a function other than Call and Cancel: a consumer blocked in Next wakes up before the period has ended and takes a permission that was only due at its end"})
+			}
+		}
+	}
 	// GG2: Next answers true only when the throttle is known not to be cancelled
 	if fn := p.Func("gogu.(*throttler).Next"); fn != nil {
 		for _, alt := range returnAlternatives(fn, 0) {
@@ -382,6 +420,7 @@ func c20Extra(p *core.Program, r *core.Report) {
 	r.Floor("MF1", 1)
 	r.Floor("GG1", 2)
 	r.Floor("GG2", 2)
+	r.Floor("CV4", 2)
 	_ = fmt.Sprint
 }
 
